@@ -90,28 +90,29 @@ class _Collect:
 
 
 def _replay_job(job):
-    idx, beh = job
+    idx, beh = job[0], job[1]
     c = _Collect()
-    replay(c, beh, idx)
+    replay(c, beh, idx, mag=(job[2] if len(job) > 2 else 1.0))
     return {"viol": c.viol, "n": c.n, "keys": c.keys, "traces": 1}
 
 
-def replay(ctx, beh, idx, newton_too=True):
-    """Replays one behaviour; returns number of steps checked."""
+def replay(ctx, beh, idx, newton_too=True, mag=1.0):
+    """Replays one behaviour; returns number of steps checked.  mag: the data (states, loads, prescribed values) are scaled
+    by this factor and the scaled step is expected (TimeSchemes.tla, Homogeneous)."""
     m0 = beh["steps"][0].get("matv", beh["mat"])
     # the matrices are arrays modified in place when a step comes with other matrices (K, C, M re-assembled between two steps)
     K, C, M = mat(m0["k"]), mat(m0["c"]), mat(m0["m"])
     sims = [("direct", _make(K, C, M))]
-    if newton_too and all(s["p"]["algo"] != "euler_explicit" for s in beh["steps"]):
+    if newton_too and mag == 1.0 and all(s["p"]["algo"] != "euler_explicit" for s in beh["steps"]):
         sims.append(("newton", _make(K, C, M, newton=True)))
     nchecked = 0
     for mode, simu in sims:
         K[...], C[...], M[...] = mat(m0["k"]), mat(m0["c"]), mat(m0["m"])
         pre = beh["steps"][0]["pre"]
-        simu.set_state(vec(pre[0]), vec(pre[1]), vec(pre[2]))
+        simu.set_state(vec(pre[0]) * mag, vec(pre[1]) * mag, vec(pre[2]) * mag)
         for k, st in enumerate(beh["steps"]):
             p = st["p"]
-            key = f"{p['algo']}/{mode}"
+            key = f"{p['algo']}/{mode}" + ("" if mag == 1.0 else f"/x{mag:g}")
             if "matv" in st:
                 Kn, Cn, Mn = mat(st["matv"]["k"]), mat(st["matv"]["c"]), mat(st["matv"]["m"])
                 if not (np.array_equal(Kn, K) and np.array_equal(Cn, C) and np.array_equal(Mn, M)):
@@ -133,25 +134,25 @@ def replay(ctx, beh, idx, newton_too=True):
             else:
                 _set_algo(simu, p, beh.get("spelling", "member"))
             simu.Bc_Init()
-            F = vec(st["F"])
+            F = vec(st["F"]) * mag
             if np.any(F != 0):
                 simu.add_neumann(np.array([0]), [F[0]], ["x"])
                 simu.add_neumann(np.array([1]), [F[1]], ["x"])
             if st["cons"]:
-                simu.add_dirichlet(np.array([1]), [float(fr(st["g"]))], ["x"])
-            exp_u, exp_v, exp_a = vec(st["post"][0]), vec(st["post"][1]), vec(st["post"][2])
-            scale = max(1.0, np.abs(np.concatenate([exp_u, exp_v, exp_a, vec(pre[0]), vec(pre[1]), vec(pre[2])])).max())
+                simu.add_dirichlet(np.array([1]), [float(fr(st["g"])) * mag], ["x"])
+            exp_u, exp_v, exp_a = vec(st["post"][0]) * mag, vec(st["post"][1]) * mag, vec(st["post"][2]) * mag
+            scale = mag * max(1.0, np.abs(np.concatenate([vec(st["post"][0]), vec(st["post"][1]), vec(st["post"][2]), vec(pre[0]), vec(pre[1]), vec(pre[2])])).max())
             # the three code tables against the derived quantities
             if mode == "direct":
                 cK, cC, cM = simu._Solver_Get_K_C_M_coefs_for_time_scheme()
                 ck = [float(fr(q)) for q in st["coefs"]]
                 if not _close([cK, cC, cM], ck, max(1.0, max(abs(c) for c in ck))):
                     ctx.violation(f"coefs/{p['algo']}", f"system-matrix weights {(cK, cC, cM)} != derivatives of evaluation-point states {ck} for {p}", {"behaviour": beh, "step": k})
-                xs = vec(st["x"])
+                xs = vec(st["x"]) * mag
                 if p["algo"] != "euler_explicit":
                     ut, vt, at = simu._Solver_Evaluate_u_v_a_for_time_scheme(simu.problemType, xs.copy())
                     ev = st["evalv"]
-                    ok = _close(ut, vec(ev[0]), scale) and _close(vt, vec(ev[1]), scale) and (at is None or _close(at, vec(ev[2]), scale))
+                    ok = _close(ut, vec(ev[0]) * mag, scale) and _close(vt, vec(ev[1]) * mag, scale) and (at is None or _close(at, vec(ev[2]) * mag, scale))
                     if not ok:
                         ctx.violation(f"evalpoint/{p['algo']}", f"evaluation-point states differ from documented definition for {p}: got {(ut, vt, at)} expected {[vec(e) for e in ev]}", {"behaviour": beh, "step": k})
             with contextlib.redirect_stdout(io.StringIO()):
@@ -167,7 +168,7 @@ def replay(ctx, beh, idx, newton_too=True):
                 )
                 break
             # energy claim observed through the implementation's own Calc_Energy
-            if mode == "direct" and not st["cons"] and np.all(F == 0) and np.all(C == 0):
+            if mode == "direct" and mag == 1.0 and not st["cons"] and np.all(F == 0) and np.all(C == 0):
                 Ks, _, Ms, _ = simu.Get_K_C_M_F()
                 dofs = np.arange(2)
                 E1 = simu.Calc_Energy(Ks, got[0], dofs) + simu.Calc_Energy(Ms, got[1], dofs)
@@ -182,7 +183,7 @@ def replay(ctx, beh, idx, newton_too=True):
                     ctx.violation(f"energy/{p['algo']}", f"backward Euler increased the energy: {E0} -> {E1}", {"behaviour": beh, "step": k})
             pre = st["post"]
             nchecked += 1
-            ctx.count(1, distinct_key=(p["algo"], p["dt"][0], p["dt"][1], tuple(p["al"]), tuple(p["be"]), tuple(p["ga"]), st["cons"], mode, idx % 8))
+            ctx.count(1, distinct_key=(p["algo"], p["dt"][0], p["dt"][1], tuple(p["al"]), tuple(p["be"]), tuple(p["ga"]), st["cons"], mode, idx % 8, mag))
     return nchecked
 
 
@@ -220,7 +221,13 @@ def run(ctx):
     ctx.tlc_must_fail("MC_TimeSchemes", "MC_TimeSchemes_neg.cfg")
     # the design in which a refused set-call has already switched the scheme must be rejected
     ctx.tlc_must_fail("MC_TimeSchemes", "MC_TimeSchemes_neg_refuse.cfg", expect="RefusedKeeps")
-    ctx.pmap(_replay_job, list(enumerate(behs)))
+    jobs = [(i, b) for i, b in enumerate(behs)]
+    # Homogeneous: a sample of the behaviours again with the data scaled by powers of ten (tiny and large states)
+    step = 1 if ctx.thorough else 5
+    mags = (1e-18, 1e-7, 1e9)
+    scaled = [(i, b, mags[(i // step) % len(mags)]) for i, b in enumerate(behs) if i % step == ctx.seed % step]
+    ctx.pmap(_replay_job, jobs + scaled)
+    ctx.section("scaled_replay", behaviours=len(scaled), factors=list(mags))
     nsteps = ctx.cov["evaluations"]
     for i, beh in enumerate(behs):
         if i in (0, len(behs) // 2, len(behs) - 1):
